@@ -493,10 +493,7 @@ class Exec:
             self.stmt(st, last=(i == len(body) - 1))
         if not self.returned:
             self.err(self.fn, f"`{self.fn.name}` does not end in a return")
-        r = self.res
-        if r.has_flat and not r.flat_ok:
-            r.flat_ok = False
-        return r
+        return self.res
 
     def stmt(self, st, last):
         if isinstance(st, ast.If):
@@ -938,6 +935,9 @@ def generate(src: str, pkg: Path = PKG):
              "`library == \"ak\"`, the dict itself otherwise; `always-zip`; `delegates:p`: whatever `p` returns for the computed value) -/\n"
              "def containers : List (String × String) := [\n" +
              ",\n".join(f"  ({_lean_str(r.name)}, {_lean_str(r.container)})" for r in results) + "]\n\n")
+    L.append("/-- parser ↦ the fields that are only present when `with_pos` (the same fields whose `wiring` expression carries the `pos:` prefix), in output order -/\n"
+             "def posOnly : List (String × List String) := [\n" +
+             ",\n".join(f"  ({_lean_str(r.name)}, [" + ", ".join(_lean_str(n) for n, _, pos in r.fields if pos) + "])" for r in results) + "]\n\n")
     L.append("/-- default of `with_pos` -/\ndef withPosDefaults : List (String × Bool) := [\n" +
              ",\n".join(f"  ({_lean_str(r.name)}, {'true' if r.with_pos_default else 'false'})" for r in results if r.with_pos_default is not None) + "]\n\n")
     flat_p = [r for r in results if r.has_flat]
